@@ -1,14 +1,9 @@
 //verif:dest internal/server/zz_verif_c14.go
-//verif:replace golang.org/x/crypto/ssh.NewServerConn = c14NewServerConn
-//verif:replace golang.org/x/crypto/ssh.DiscardRequests = c14Discard
-//verif:replace golang.org/x/crypto/ssh.Unmarshal = c14Unmarshal
 
 package server
 
 import (
 	"context"
-	"errors"
-	"io"
 	"net"
 	"time"
 
@@ -19,100 +14,6 @@ import (
 
 	gossh "golang.org/x/crypto/ssh"
 )
-
-// ---- gossh stand-ins behind the real interfaces ----
-
-type c14Conn struct {
-	id      int
-	kind    int
-	closed  chan struct{}
-	isClosed bool
-	chans   chan gossh.NewChannel
-}
-
-func (c *c14Conn) User() string          { return "alice" }
-func (c *c14Conn) SessionID() []byte     { return nil }
-func (c *c14Conn) ClientVersion() []byte { return nil }
-func (c *c14Conn) ServerVersion() []byte { return nil }
-func (c *c14Conn) RemoteAddr() net.Addr  { return c14Addr("10.0.0.1:5000") }
-func (c *c14Conn) LocalAddr() net.Addr   { return c14Addr("0.0.0.0:2222") }
-func (c *c14Conn) SendRequest(name string, wantReply bool, payload []byte) (bool, []byte, error) {
-	return false, nil, nil
-}
-func (c *c14Conn) OpenChannel(name string, data []byte) (gossh.Channel, <-chan *gossh.Request, error) {
-	return nil, nil, errors.New("not supported")
-}
-func (c *c14Conn) Close() error {
-	if !c.isClosed {
-		c.isClosed = true
-		close(c.closed)
-	}
-	return nil
-}
-func (c *c14Conn) Wait() error { <-c.closed; return io.EOF }
-
-// net.Conn side (only handed to the NewServerConn stub)
-func (c *c14Conn) Read(b []byte) (int, error)         { return 0, io.EOF }
-func (c *c14Conn) Write(b []byte) (int, error)        { return len(b), nil }
-func (c *c14Conn) SetDeadline(t time.Time) error      { return nil }
-func (c *c14Conn) SetReadDeadline(t time.Time) error  { return nil }
-func (c *c14Conn) SetWriteDeadline(t time.Time) error { return nil }
-
-type c14Addr string
-
-func (a c14Addr) Network() string { return "tcp" }
-func (a c14Addr) String() string  { return string(a) }
-
-type c14NewChan struct {
-	conn  *c14Conn
-	ctype string
-	reqs  chan *gossh.Request
-	ch    *c14Channel
-}
-
-func (n *c14NewChan) Accept() (gossh.Channel, <-chan *gossh.Request, error) { return n.ch, n.reqs, nil }
-func (n *c14NewChan) Reject(reason gossh.RejectionReason, message string) error { return nil }
-func (n *c14NewChan) ChannelType() string { return n.ctype }
-func (n *c14NewChan) ExtraData() []byte   { return nil }
-
-type c14Channel struct{ conn *c14Conn }
-
-func (c *c14Channel) Read(data []byte) (int, error)  { <-c.conn.closed; return 0, io.EOF }
-func (c *c14Channel) Write(data []byte) (int, error) { return len(data), nil }
-func (c *c14Channel) Close() error                   { return nil }
-func (c *c14Channel) CloseWrite() error              { return nil }
-func (c *c14Channel) SendRequest(name string, wantReply bool, payload []byte) (bool, error) {
-	return false, nil
-}
-func (c *c14Channel) Stderr() io.ReadWriter { return nil }
-
-func c14NewServerConn(c net.Conn, cfg *gossh.ServerConfig) (*gossh.ServerConn, <-chan gossh.NewChannel, <-chan *gossh.Request, error) {
-	conn := c.(*c14Conn)
-	if conn.kind == 0 {
-		return nil, nil, nil, errors.New("ssh: handshake failed: unable to authenticate")
-	}
-	c14Authenticated[conn.id] = true
-	sc := &gossh.ServerConn{Conn: conn}
-	return sc, conn.chans, make(chan *gossh.Request), nil
-}
-func c14Discard(in <-chan *gossh.Request) {}
-func c14Unmarshal(data []byte, out interface{}) error { return nil }
-
-type c14Listener struct {
-	incoming chan net.Conn
-}
-
-func (l *c14Listener) Accept() (net.Conn, error) {
-	c, ok := <-l.incoming
-	if !ok {
-		return nil, errors.New("listener closed")
-	}
-	return c, nil
-}
-func (l *c14Listener) Close() error   { return nil }
-func (l *c14Listener) Addr() net.Addr { return c14Addr("0.0.0.0:2222") }
-
-var c14Authenticated map[int]bool
 
 // connection kinds
 const (
